@@ -206,6 +206,9 @@ OPS = {
     "set dynv": lambda o: setattr(o, "dynv", 4),
     "set dynv bad": lambda o: setattr(o, "dynv", 3),
     "read fac": lambda o: o.fac,
+    # deleting a stored value of a listened-to trait: the new default is computed for the notification
+    "del dynv": lambda o: delattr(o, "dynv"),
+    "del dyn": lambda o: delattr(o, "dyn"),
     "read p": lambda o: o.p,
     "read pdep": lambda o: o.pdep,
     "q set": lambda o: setattr(o, "q", 3),
@@ -227,6 +230,7 @@ OPS = {
 PREFIX = {
     "e=2": lambda o: setattr(o, "e", 2), "le=[2,4]": lambda o: setattr(o, "le", [2, 4]), "de.update": lambda o: o.de.update({"a": 2}),
     "se={2}": lambda o: o.se.update([2]), "read p": lambda o: o.p, "read pdep": lambda o: o.pdep, "read dyn": lambda o: o.dyn, "t=2": lambda o: setattr(o, "t", 2),
+    "dynv=4": lambda o: setattr(o, "dynv", 4), "dynv=6": lambda o: setattr(o, "dynv", 6), "dyn=7": lambda o: setattr(o, "dyn", 7),
     "tl=[2]": lambda o: setattr(o, "tl", [2]), "q=1": lambda o: setattr(o, "q", 1), "base=2": lambda o: setattr(o, "base", 2),
 }
 FOLLOW = {
